@@ -148,3 +148,41 @@ Section CopyContent.
       rewrite B4, B3. apply Hddec.
   Qed.
 End CopyContent.
+
+(* ------------------------------------------------------------------ restores identically (model level) *)
+
+(* a chunk of a file anywhere in a snapshot tree is reachable *)
+Lemma reach_file_chunk tid : forall d t, (depth t <= d)%nat -> forall pre p n i,
+  In (p, n) (paths pre t) -> n_kind n = KFile -> In i (n_content n) -> In (Data, i) (flat_map (reach_node tid) t).
+Proof.
+  induction d as [|d IH]; intros t Hd pre p n i Hin Hk Hi.
+  - destruct t as [|a r]; [destruct Hin|]. pose proof (depth_in (a :: r) a (or_introl eq_refl)). pose proof (depth_sub a). lia.
+  - unfold paths in Hin. apply in_flat_map in Hin. destruct Hin as [x [Hx Hp]]. apply in_flat_map. exists x. split; [exact Hx|].
+    destruct x as [a k m tg c s]. cbn [paths_node] in Hp. destruct Hp as [E|Hp].
+    + inv E. cbn [n_kind] in Hk. subst k. cbn [reach_node n_content] in *. apply in_map. exact Hi.
+    + destruct k; try (destruct Hp; fail). cbn [reach_node]. right.
+      apply (IH s) with (pre := pre ++ [a]) (p := p) (n := n); try assumption.
+      pose proof (depth_in t _ Hx) as H1. cbn [depth_node] in H1. unfold depth in *. lia.
+Qed.
+
+(* For plaintext lookups `src_plain`, `dst_plain` (index entry -> pack -> slice -> decode) of the two
+   repositories: if blobs the destination already had are the same content (content addressing: equal
+   (type, id) = equal plaintext) and every blob copy needed decodes in the destination to the source's bytes
+   (copy_preserves_content), then EVERY reachable blob reads the same in the destination, so every file of
+   every copied snapshot restores to the same bytes: same chunk list, same plaintext per chunk. *)
+Lemma copy_restores_identically_lemma : forall tid src dst snaps (src_plain dst_plain : bt * N -> option (list N)),
+  (forall b, In b (flat_map (reach tid) snaps) -> has src b = true) ->
+  (forall b, In b (flat_map (reach tid) snaps) -> has dst b = true -> dst_plain b = src_plain b) ->
+  (forall b, In b (needed tid src dst snaps) -> dst_plain b = src_plain b) ->
+  (forall b, In b (flat_map (reach tid) snaps) -> dst_plain b = src_plain b) /\
+  forall t p n, In t snaps -> In (p, n) (paths [] t) -> n_kind n = KFile ->
+    map (fun i => dst_plain (Data, i)) (n_content n) = map (fun i => src_plain (Data, i)) (n_content n).
+Proof.
+  intros tid src dst snaps sp dp Hsrc Hold Hnew.
+  assert (forall b, In b (flat_map (reach tid) snaps) -> dp b = sp b) as Hall.
+  { intros b Hb. destruct (has dst b) eqn:Ed; [apply Hold; assumption|]. apply Hnew.
+    unfold needed. apply filter_In. split; [apply seen_covers_reach; exact Hb|]. rewrite Ed, (Hsrc b Hb). reflexivity. }
+  split; [exact Hall|]. intros t p n Ht Hp Hk. apply map_ext_in. intros i Hi. apply Hall.
+  apply in_flat_map. exists t. split; [exact Ht|]. unfold reach. right.
+  eapply reach_file_chunk; [apply Nat.le_refl | exact Hp | exact Hk | exact Hi].
+Qed.
